@@ -4,6 +4,8 @@
 //   * deterministic structural dumps: XSModel (recursive, cycle protected, hash-order independent) and DTDGrammar.
 #pragma once
 #include "xv_xml.hpp"
+#include <iterator>
+#include <regex>
 
 #include <xercesc/dom/DOMPSVITypeInfo.hpp>
 #include <xercesc/dom/DOMTypeInfo.hpp>
@@ -219,7 +221,8 @@ struct Verdict {
 
 // validate `doc` against `pool` only (useCachedGrammarInParse, nothing else is reachable: the VFS holds no grammar file).
 // api: 0 = DOM (+ schema type info), 1 = SAX2 (+ PSVI handler when schema)
-inline Verdict validate(XMLGrammarPoolImpl* pool, const std::string& doc, bool isSchema, int api) {
+inline Verdict validate(XMLGrammarPoolImpl* pool, const std::string& doc, bool isSchema, int api, bool psvi = true) {
+    psvi = psvi && isSchema;
     Verdict V;
     ParseResult r;
     std::vector<std::string> extra;
@@ -235,14 +238,14 @@ inline Verdict validate(XMLGrammarPoolImpl* pool, const std::string& doc, bool i
             p.setValidationScheme(XercesDOMParser::Val_Always);
             p.setValidationSchemaFullChecking(false);
             p.useCachedGrammarInParse(true);
-            p.setCreateSchemaInfo(isSchema);
+            p.setCreateSchemaInfo(psvi);
             p.setCreateEntityReferenceNodes(false);
             p.setExitOnFirstFatalError(true);
             p.parse(src);
             DOMDocument* d = p.getDocument();
             if (d) dom_dump(d, r.d, cfg.ns);
             r.d.flush();
-            if (d && isSchema && d->getDocumentElement()) dom_types(d->getDocumentElement(), 0, extra);
+            if (d && psvi && d->getDocumentElement()) dom_types(d->getDocumentElement(), 0, extra);
         } else {
             std::unique_ptr<SAX2XMLReader> p(XMLReaderFactory::createXMLReader(XMLPlatformUtils::fgMemoryManager, pool));
             Sax2H h; h.r = &r; h.cfg = &cfg; h.nsmode = cfg.ns;
@@ -255,7 +258,7 @@ inline Verdict validate(XMLGrammarPoolImpl* pool, const std::string& doc, bool i
             p->setFeature(XMLUni::fgXercesSchemaFullChecking, false);
             p->setFeature(XMLUni::fgXercesUseCachedGrammarInParse, true);
             p->setContentHandler(&h); p->setDTDHandler(&h); p->setErrorHandler(&h); p->setLexicalHandler(&h); p->setDeclarationHandler(&h);
-            if (isSchema) ((SAX2XMLReaderImpl*)p.get())->setPSVIHandler(&ph);
+            if (psvi) ((SAX2XMLReaderImpl*)p.get())->setPSVIHandler(&ph);
             p->parse(src);
             r.d.flush();
         }
@@ -642,6 +645,14 @@ inline void neutralise_element_ids(XMLGrammarPoolImpl* p) {
             while (ge.hasMoreElements()) { XercesGroupInfo& gi = ge.nextElement(); for (XMLSize_t i = 0; i < gi.elementCount(); i++) gi.elementAt(i)->setId(0); }
         }
     }
+}
+
+// multiset symmetric difference of the lines of two dumps: onlyA / onlyB
+inline void line_symdiff(const std::string& a, const std::string& b, std::vector<std::string>& onlyA, std::vector<std::string>& onlyB) {
+    auto split = [](const std::string& s) { std::vector<std::string> v; size_t i = 0; while (i < s.size()) { size_t j = s.find('\n', i); if (j == std::string::npos) j = s.size(); v.push_back(s.substr(i, j - i)); i = j + 1; } std::sort(v.begin(), v.end()); return v; };
+    std::vector<std::string> x = split(a), y = split(b);
+    std::set_difference(x.begin(), x.end(), y.begin(), y.end(), std::back_inserter(onlyA));
+    std::set_difference(y.begin(), y.end(), x.begin(), x.end(), std::back_inserter(onlyB));
 }
 
 inline std::string first_diff(const std::string& a, const std::string& b) {
